@@ -68,6 +68,40 @@ def _worker(args):
   cases, objs = [], []
   for it in its:
     r = C.rng(seed, 'c19/%d' % it)
+    if it >= 3000:
+      # many optimisers for search spaces of different shapes built (and dropped) one after the other in this process: what an
+      # optimiser knows about ITS space (numbers of features, category counts) must not come from an earlier one
+      mismatch = None
+      shapes_ = [(2, [6, 6]), (0, [2, 3]), (1, [5]), (3, []), (2, [2, 3]), (0, [4, 4, 4])]
+      for att in range(240):
+        ncont_, cats_ = shapes_[(att // 40 + att % 2) % len(shapes_)] if att >= 80 else shapes_[0 if att % 2 == 0 else 1 + (att // 2) % (len(shapes_) - 1)]
+        _prob, conv_ = make(ncont_, cats_, False)
+        fd_ = eagle_strategy.compute_feature_dimensions_from_converter(conv_)
+        got_sizes = [int(x_) for x_ in fd_.categorical_sizes][:len(cats_)]
+        got_n = (int(fd_.n_feature_dimensions.continuous), int(fd_.n_feature_dimensions.categorical))
+        if got_sizes != list(cats_) or got_n != (ncont_, len(cats_)):
+          mismatch = (att, ncont_, cats_, got_n, [int(x_) for x_ in fd_.categorical_sizes], conv_)
+          break
+        del _prob, conv_
+      rep.case({'stage': 'many-optimisers-in-one-process', 'converters_built': att + 1}, True)
+      rep.count('many_optimisers_in_one_process')
+      if mismatch is not None:
+        att, ncont_, cats_, got_n, got_sizes, conv_ = mismatch
+        detail = {'converters_built_before': att, 'n_continuous': ncont_, 'categorical_sizes': cats_, 'dimensions_reported': got_n,
+                  'category_counts_reported': got_sizes}
+        try:
+          opt_ = vb.VectorizedOptimizerFactory(strategy_factory=eagle_strategy.VectorizedEagleStrategyFactory(), max_evaluations=20,
+                                               suggestion_batch_size=5, use_fori=False)(conv_)
+          res_ = opt_(lambda x, _: -jnp.sum(x.continuous.padded_array ** 2, axis=-1) + 0.0 * jnp.sum(x.categorical.padded_array, axis=-1), count=4,
+                      seed=jax.random.PRNGKey(1))
+          cat_ = np.asarray(res_.features.categorical)
+          detail['returned_categorical_features'] = cat_[..., :len(cats_)].tolist()
+          detail['valid'] = bool(np.all(cat_[..., :len(cats_)] >= 0) and np.all(cat_[..., :len(cats_)] < np.array(cats_)))
+        except Exception as e:  # pylint: disable=broad-except
+          detail['optimiser_error'] = '%s: %s' % (type(e).__name__, str(e)[:200])
+        viol('an eagle optimiser built after optimisers for other search spaces works with the feature layout of an earlier space '
+             '(category counts / numbers of features do not belong to its converter): its candidates need not be valid category indices', detail)
+      continue
     ncont = r.choice([0, 1, 2, 3])
     cats = [r.choice([2, 3, 5]) for _ in range(r.choice([0, 1, 2, 3]))]
     if ncont == 0 and not cats:
@@ -101,6 +135,13 @@ def _worker(args):
       ncont, cats, pad, strat, kind = r.choice([36, 40]), [], False, 'eagle', 'needle'
       batch, count = r.choice([32, 30, 40, 64]), 2
       maxev = 6 * batch
+    catonly = 2000 <= it < 3000
+    if catonly:
+      # no continuous feature at all, a categorical space too large to hit one combination by chance, a few prior points and the
+      # needle on one of them; the budget walks the whole pool, so the needle is proposed and the result cannot be worse than it
+      ncont, cats, strat, kind = 0, r.choice([[5, 5, 5, 3], [5, 5, 5, 5], [3, 5, 5, 5, 2]]), 'eagle', 'needle'
+      batch, count = r.choice([5, 10]), r.choice([1, 2])
+      maxev = 8 * batch
     tag = dict(strategy=strat, n_continuous=ncont, categorical_sizes=cats, feature_padding=pad, batch=batch, count=count,
                max_evaluations=maxev, score=kind, seed=it)
     prob, conv = make(ncont, cats, pad)
@@ -122,7 +163,7 @@ def _worker(args):
     if many:
       kind = 'needle'
       tag['score'] = kind
-    if many or r.random() < 0.5:
+    if many or catonly or r.random() < 0.5:
       trials = []
       for _ in range(r.choice([110, 140]) if many and not lastslot else 150 if lastslot else r.choice([1, 3, 6])):
         params = {('x%d' % i): r.random() for i in range(ncont)}
@@ -211,6 +252,17 @@ def _worker(args):
                                                                   [np.where(np.isnan(e), -np.inf, e) for e in cand_evals]], lambda b: glist(b, gZ)),
                                        glist([rank[v] for v in got.tolist()], gZ)))
     objs.append(dict(tag, rewards=rew.tolist()))
+    if prior is not None and strat == 'eagle' and seeded:
+      # the rewards the strategy is seeded with: a real prior point whose score is finite must arrive with that score (-inf is
+      # how padding rows are marked; a real point marked so is thrown away)
+      prw_ = np.asarray(seeded[0][1]).reshape(-1)
+      pr_all = np.asarray(raw(jnp.asarray(prior.continuous.padded_array), jnp.asarray(prior.categorical.padded_array))).reshape(-1)
+      nreal = min(tag['n_prior'], prw_.shape[0], pr_all.shape[0])
+      lost = [i for i in range(nreal) if np.isfinite(pr_all[i]) and not np.isfinite(prw_[i])]
+      rep.count('prior_rewards_checked')
+      if lost:
+        viol('prior points with a finite score reach the strategy marked as padding (reward -inf)',
+             dict(tag, prior_points_lost=lost[:10], scores=pr_all[:nreal].tolist()[:10], seeded_rewards=prw_[:nreal].tolist()[:10]))
     if prior is not None:
       pr = np.asarray(raw(jnp.asarray(prior.continuous.padded_array), jnp.asarray(prior.categorical.padded_array)))
       pr = pr[np.isfinite(pr)]
@@ -340,6 +392,10 @@ def run(tier, seed):
   slices = [list(range(k, nrun, nproc)) for k in range(nproc)]
   for k_, it_ in enumerate(range(1000, 1001 if quick else 1008)):     # the "best prior in the last pool slot" stratum
     slices[(3 + k_) % nproc].append(it_)
+  for k_, it_ in enumerate(range(2000, 2003 if quick else 2024)):     # the "no continuous feature, needle on a prior point" stratum
+    slices[(7 + k_) % nproc].append(it_)
+  for k_, it_ in enumerate(range(3000, 3001 if quick else 3004)):     # the "many optimisers in one process" stage
+    slices[(11 + k_) % nproc].insert(0, it_)
   cases, objs = [], []
   with concurrent.futures.ProcessPoolExecutor(max_workers=nproc, mp_context=multiprocessing.get_context('spawn')) as pool:
     for events in pool.map(_worker, [(seed, sl, {k: v['what'] for k, v in known.items()}) for sl in slices if sl]):
